@@ -234,6 +234,43 @@ VH_CMD(htl) {
     return out;
 }
 
+static const char* const kTmplFormat = "{file}:{line}:{column}:{id}:{message}";
+static const char* const kTmplLocation = "{file}:{line}:{column}:{info}";
+
+// verbose msg... -> ErrorMessage::toString with the two fixed templates
+VH_CMD(render) {
+    std::size_t i = 0;
+    const bool vb = a.at(i++) == "1";
+    const ErrorMessage m = takeMsg(a, i);
+    return {m.toString(vb, kTmplFormat, kTmplLocation)};
+}
+
+// emitDuplicates nomsg... msgs(full messages with call stacks): Executor::hasToLog with a location template
+VH_CMD(htlm) {
+    std::size_t i = 0;
+    const bool ed = a.at(i++) == "1";
+    Suppressions supprs;
+    std::string err;
+    if (!fill(supprs.nomsg, a, i, err))
+        return {"rejected", err};
+    Settings settings;
+    settings.templateFormat = kTmplFormat;
+    settings.templateLocation = kTmplLocation;
+    settings.emitDuplicates = ed;
+    Recorder rec;
+    const std::list<FileWithDetails> files;
+    const std::list<FileSettings> fileSettings;
+    Exec ex(files, fileSettings, settings, supprs, rec, nullptr);
+    Fields out;
+    const long long n = vhToLL(a.at(i++));
+    for (long long k = 0; k < n; k++) {
+        const ErrorMessage m = takeMsg(a, i);
+        out.push_back(vhBool(ex.hasToLog(m)));
+    }
+    flagsOut(supprs.nomsg, out);
+    return out;
+}
+
 // list..., updates...: SuppressionList::updateSuppressionState for each update in order
 VH_CMD(upd) {
     std::size_t i = 0;
